@@ -2,7 +2,8 @@
 Every phase handler is extracted verbatim and proved to preserve the engine invariant `inv()`;
 mechanism / framer / command parser enter as abstract contract stand-ins (prelude/engine_env.rs)."""
 import re
-from vlib.vx import Fn, Item, Raw
+from vlib.vx import Fn, Item, Raw, as_contract
+from units import command, enc
 from vlib.runner import Unit
 
 EN = "core/src/protocol/zmtp/engine.rs"
@@ -17,15 +18,6 @@ impl EngineOutput {
   pub fn new() -> (r: EngineOutput) ensures r.net_actions@.len() == 0, r.app_actions@.len() == 0 {
     EngineOutput { net_actions: Vec::new(), app_actions: Vec::new() }
   }
-}
-// codec Encoder<Msg>::encode: contract proved on the real body in unit `enc`
-pub struct ZmtpCodec { x: u8 }
-impl ZmtpCodec {
-  pub fn new() -> ZmtpCodec { ZmtpCodec { x: 0 } }
-  #[verifier::external_body]
-  pub fn encode(&mut self, item: Msg, dst: &mut BytesMut) -> (r: Result<(), ZmqError>)
-    ensures r is Ok, final(dst)@ == old(dst)@ + enc_msg(item)
-  { unimplemented!() }
 }
 // R8: the TCP_CORK socket-type test `matches!(name.as_str(), "PUSH" | "PULL" | "PUB" | "SUB")` (string patterns are
 // outside Verus' subset; the verdict only selects a SetCork net action and is left uninterpreted)
@@ -152,6 +144,7 @@ parts = [
   Raw("prelude/msg.rs"),
   Raw("prelude/framebatch.rs"),
   Raw("prelude/zmtp_spec.rs"),
+  Raw("prelude/command_spec.rs"),
   Raw("prelude/engine_env.rs"),
   Item(GR, "const", "GREETING_LENGTH"),
   Item(GR, "const", "MECHANISM_LENGTH"),
@@ -171,6 +164,17 @@ parts = [
   Item(EN, "struct", "ZmtpEngine"),
   Raw("prelude/engine_spec.rs"),
   Raw(text=GLUE, label="engine-glue"),
+  # codec: real struct + constructor, Encoder<Msg>::encode by its contract proved in unit `enc`
+  Item(enc.CODEC, "struct", "FrameHeader"),
+  Item(enc.CODEC, "enum", "DecodingState"),
+  Item(enc.CODEC, "struct", "ZmtpCodec"),
+  Fn(enc.CODEC, "new", impl=r"impl\s+ZmtpCodec\b", emit_impl="impl ZmtpCodec",
+     extra=[("R5", "DecodingState::default()", "DecodingState::ReadHeader", 1)]),
+  as_contract(enc.FNS["encode"]),
+  # command parser/constructors: contracts proved on the real bodies in unit `command`
+  as_contract(command.FNS["parse"]),
+  as_contract(command.FNS["create_pong"]),
+  as_contract(command.FNS["create_ping"]),
   Fn(EN, "encode_msg",
      sig_sub=[("crate::Msg", "Msg")],
      ensures=[("C03+C19:ok", "r is Ok"), ("C03+C19:wire_bytes", "r matches Ok(b) ==> b@ == enc_msg(msg)")],
